@@ -45,13 +45,21 @@ func init() {
 	})
 }
 
+// inSet: the innermost session-level frame of the racing access (store internals skipped) is one
+// of the functions that run with sendMutex/resendMutex held — i.e. the access itself happens
+// inside the critical section the property's mechanism names, not merely below a function that
+// takes the lock later.
 func inSet(frames []string) bool {
 	for _, f := range frames {
+		if !strings.HasPrefix(f, "github.com/quickfixgo/quickfix.") || strings.Contains(f, "Store)") || strings.Contains(f, "Verif") {
+			continue // runtime, store implementations, instrumentation
+		}
 		for _, x := range exclusionSet {
 			if strings.HasSuffix(f, ")."+x) || strings.HasSuffix(f, "."+x) {
 				return true
 			}
 		}
+		return false
 	}
 	return false
 }
@@ -98,10 +106,11 @@ type runCfg struct {
 	Procs              int
 	Begin              string
 	Yield              int
+	Reset              string // "" | api (ResetSession through the registry) | seqtime (ResetSeqTime crossed: the engine sends Logon 141=Y)
 }
 
 func (c runCfg) String() string {
-	return fmt.Sprintf("%s senders=%d x %d store=%s persist=%v GOMAXPROCS=%d yield=%d/1000", c.Begin, c.Senders, c.PerSender, c.Store, c.Persist, c.Procs, c.Yield)
+	return fmt.Sprintf("%s senders=%d x %d store=%s persist=%v reset=%q", c.Begin, c.Senders, c.PerSender, c.Store, c.Persist, c.Reset)
 }
 
 type counterIn struct{}
@@ -111,12 +120,22 @@ func oneRun(c *core.Ctx, r *core.Result, idx int, rng *rand.Rand) {
 	if !cf.Persist {
 		cf.Store = "memory"
 	}
+	cf.Reset = core.Pick(rng, "", "", "api", "api", "seqtime")
+	if cf.Begin == "FIX.4.0" && cf.Reset == "seqtime" {
+		cf.Reset = "api"
+	}
 	rec := &live.Recorder{}
 	dir := storelab.TempDir(c.TmpDir, "c02-")
 	defer os.RemoveAll(dir)
 	extra := map[string]string{}
 	if !cf.Persist {
 		extra["PersistMessages"] = "N"
+	}
+	var resetAt time.Time
+	if cf.Reset == "seqtime" {
+		resetAt = time.Now().UTC().Truncate(time.Second).Add(4 * time.Second)
+		extra["EnableResetSeqTime"] = "Y"
+		extra["ResetSeqTime"] = resetAt.Format("15:04:05")
 	}
 	tag := fmt.Sprintf("C02x%dx%d", idx, rng.Intn(1<<20))
 	var eng *live.Engine
@@ -150,6 +169,10 @@ func oneRun(c *core.Ctx, r *core.Result, idx int, rng *rand.Rand) {
 		r.Inconcl("run %d: no Logon reply within 20 s", idx)
 		return
 	}
+	select {
+	case <-p.Logons:
+	default:
+	}
 	// senders
 	var ops []clientOp
 	var opsMu sync.Mutex
@@ -177,6 +200,9 @@ func oneRun(c *core.Ctx, r *core.Result, idx int, rng *rand.Rand) {
 				if i%7 == g%7 {
 					runtime.Gosched()
 				}
+				if cf.Reset != "" {
+					time.Sleep(time.Duration(5000/cf.PerSender) * time.Millisecond)
+				}
 			}
 		}(g)
 	}
@@ -190,11 +216,43 @@ func oneRun(c *core.Ctx, r *core.Result, idx int, rng *rand.Rand) {
 	crng := rand.New(rand.NewSource(rng.Int63()))
 	go func() {
 		defer close(ctlDone)
+		apiResets := 0
+		seqtimeDone := false
 		for {
 			select {
 			case <-stopCtl:
 				return
 			case <-time.After(time.Duration(2+crng.Intn(25)) * time.Millisecond):
+			}
+			if cf.Reset == "seqtime" && !seqtimeDone && time.Until(resetAt) < 500*time.Millisecond {
+				// calm window: let the engine drain what we sent, wait for its Logon 141=Y, agree, resume
+				seqtimeDone = true
+				select {
+				case lg := <-p.Logons:
+					if f, _ := lg.Get(141); f == "Y" {
+						p.SendMu.Lock()
+						p.SetNext(1)
+						body := fixwire.Fields{lab.F(98, "0"), lab.F(108, "1"), lab.F(141, "Y")}
+						p.MsgLocked("A", 0, nil, body)
+						atomic.StoreInt64(&highest, 0)
+						p.SendMu.Unlock()
+					}
+				case <-time.After(5 * time.Second):
+				case <-stopCtl:
+					return
+				}
+				continue
+			}
+			if cf.Reset == "api" && apiResets < 2 && crng.Intn(40) == 0 {
+				// calm window, then reset the session through the public registry API while senders keep sending
+				apiResets++
+				time.Sleep(150 * time.Millisecond)
+				p.SendMu.Lock()
+				_ = quickfix.ResetSession(eng.SID)
+				p.SetNext(1)
+				atomic.StoreInt64(&highest, 0)
+				p.SendMu.Unlock()
+				continue
 			}
 			hi := int(atomic.LoadInt64(&highest))
 			switch crng.Intn(6) {
@@ -241,60 +299,88 @@ func oneRun(c *core.Ctx, r *core.Result, idx int, rng *rand.Rand) {
 	time.Sleep(30 * time.Millisecond)
 	finalNext := eng.Store().NextSenderMsgSeqNum()
 	evs := rec.Events()
-	// ---- offline checks ----
+	// ---- offline checks (per sequence-number epoch: a store Reset starts a new one) ----
 	type save struct {
 		n      int
 		ticket int64
 		bytes  []byte
 		before int
 	}
-	var saves []save
+	epochs := [][]save{nil}
+	var resetTickets []int64
 	for _, e := range evs {
-		if e.Kind == "store" && (e.StoreOp == "SaveIncr" || e.StoreOp == "IncrSender") {
+		if e.Kind != "store" {
+			continue
+		}
+		switch e.StoreOp {
+		case "Reset":
+			resetTickets = append(resetTickets, int64(e.Step))
+			epochs = append(epochs, nil)
+		case "SaveIncr", "IncrSender":
 			n := e.Arg
 			if e.StoreOp == "IncrSender" {
 				n = e.Before
 			}
-			saves = append(saves, save{n, int64(e.Step), e.Bytes, e.Before})
-		}
-		if e.Kind == "store" && e.StoreOp == "Reset" {
-			saves = nil // new epoch
+			epochs[len(epochs)-1] = append(epochs[len(epochs)-1], save{n, int64(e.Step), e.Bytes, e.Before})
 		}
 	}
-	for i, s := range saves {
-		if s.n != s.before {
-			fail("number-not-next", "message saved under %d while the store's next outbound number was %d", s.n, s.before)
-			return
-		}
-		if i > 0 && s.n != saves[i-1].n+1 {
-			cls := "gap"
-			if s.n <= saves[i-1].n {
-				cls = "repeat"
+	for ei, saves := range epochs {
+		for i, s := range saves {
+			if s.n != s.before {
+				fail("number-not-next", "message saved under %d while the store's next outbound number was %d (epoch %d)", s.n, s.before, ei)
+				return
 			}
-			fail("numbers-not-consecutive/"+cls, "numbers handed out in order of persisting: ... %d, %d ...", saves[i-1].n, s.n)
+			if i > 0 && s.n != saves[i-1].n+1 {
+				cls := "gap"
+				if s.n <= saves[i-1].n {
+					cls = "repeat"
+				}
+				fail("numbers-not-consecutive/"+cls, "numbers handed out in order of persisting: ... %d, %d ... (epoch %d)", saves[i-1].n, s.n, ei)
+				return
+			}
+		}
+		if ei > 0 && len(saves) > 0 && saves[0].n != 1 {
+			fail("epoch-not-from-1", "after a reset the first number handed out is %d", saves[0].n)
 			return
 		}
 	}
-	saved := map[int]save{}
-	for _, s := range saves {
-		saved[s.n] = s
+	epochOf := func(t int64) int {
+		k := 0
+		for _, rt := range resetTickets {
+			if rt < t {
+				k++
+			}
+		}
+		return k
+	}
+	savedIn := func(ei, n int) (save, bool) {
+		for _, s := range epochs[ei] {
+			if s.n == n {
+				return s, true
+			}
+		}
+		return save{}, false
 	}
 	// client numbers
-	seen := map[int]string{}
+	seen := map[[2]int]string{}
 	okOps := 0
 	for _, op := range ops {
 		if op.Err != nil {
 			continue
 		}
 		okOps++
-		if prev, dup := seen[op.Seq]; dup {
-			fail("duplicate-number", "sends %s and %s were both assigned MsgSeqNum %d", prev, op.ID, op.Seq)
+		ei := epochOf(op.Call)
+		if ei != epochOf(op.Ret) {
+			continue // the send straddles a reset: its epoch is ambiguous
+		}
+		if prev, dup := seen[[2]int{ei, op.Seq}]; dup {
+			fail("duplicate-number", "sends %s and %s were both assigned MsgSeqNum %d in the same epoch", prev, op.ID, op.Seq)
 			return
 		}
-		seen[op.Seq] = op.ID
-		s, ok := saved[op.Seq]
+		seen[[2]int{ei, op.Seq}] = op.ID
+		s, ok := savedIn(ei, op.Seq)
 		if !ok {
-			fail("assigned-number-not-persisted", "send %s returned MsgSeqNum %d, which was never handed to the store", op.ID, op.Seq)
+			fail("assigned-number-not-persisted", "send %s returned MsgSeqNum %d, which was never handed to the store in its epoch", op.ID, op.Seq)
 			return
 		}
 		if cf.Persist && !bytes.Contains(s.bytes, []byte("\x0111="+op.ID+"\x01")) {
@@ -302,16 +388,18 @@ func oneRun(c *core.Ctx, r *core.Result, idx int, rng *rand.Rand) {
 			return
 		}
 	}
-	// porcupine: fetch-and-increment counter
-	if len(saves) > 0 {
+	// porcupine: fetch-and-increment counter, one history per epoch
+	for ei, saves := range epochs {
+		if len(saves) == 0 {
+			continue
+		}
 		var pops []porcupine.Operation
 		clientNums := map[int]bool{}
-		for i, op := range ops {
-			if op.Err == nil {
+		for _, op := range ops {
+			if op.Err == nil && epochOf(op.Call) == ei && epochOf(op.Ret) == ei {
 				pops = append(pops, porcupine.Operation{ClientId: op.G, Input: counterIn{}, Call: op.Call, Output: op.Seq, Return: op.Ret})
 				clientNums[op.Seq] = true
 			}
-			_ = i
 		}
 		for _, s := range saves {
 			if !clientNums[s.n] {
@@ -328,7 +416,7 @@ func oneRun(c *core.Ctx, r *core.Result, idx int, rng *rand.Rand) {
 		}
 		switch porcupine.CheckOperationsTimeout(model, pops, 60*time.Second) {
 		case porcupine.Illegal:
-			fail("not-linearizable", "the history of %d sends (call/return tickets, assigned numbers) is not linearizable against a fetch-and-increment counter", len(pops))
+			fail("not-linearizable", "the history of %d sends of epoch %d (call/return tickets, assigned numbers) is not linearizable against a fetch-and-increment counter", len(pops), ei)
 			return
 		case porcupine.Unknown:
 			r.Inconcl("run %d: porcupine timed out on %d operations", idx, len(pops))
@@ -337,52 +425,83 @@ func oneRun(c *core.Ctx, r *core.Result, idx int, rng *rand.Rand) {
 			r.Count("porcupine_operations", len(pops))
 		}
 	}
-	// wire
-	lastFirst := 0
-	wireSeen := map[int]bool{}
+	// wire: first-time frames are matched to saves, walking the epochs forward
 	var wire []lab.Event
 	for _, e := range evs {
 		if e.Kind == "out" {
 			wire = append(wire, e)
 		}
 	}
+	match := func(ei int, e lab.Event) (save, bool) {
+		s, ok := savedIn(ei, e.Seq)
+		if ok && cf.Persist && !bytes.Equal(s.bytes, e.Bytes) {
+			return s, false
+		}
+		return s, ok
+	}
+	ew, lastFirst := 0, 0
+	wireSeen := map[[2]int]bool{}
 	for _, e := range wire {
 		if pd, _ := e.Fields.Get(43); pd == "Y" {
 			continue
 		}
-		if t, _ := e.Fields.Get(35); t == "A" && e.Seq == 1 && lastFirst > 1 {
-			lastFirst = 0
+		s, ok := match(ew, e)
+		repeated := ok && e.Seq <= lastFirst
+		if repeated {
+			ok = false // the number was already seen in this epoch: the frame may belong to a later one (identical bytes are possible for two Logons of the same millisecond)
+		}
+		if !ok {
+			found := false
+			for k := ew + 1; k < len(epochs); k++ {
+				if s2, ok2 := match(k, e); ok2 {
+					s, ok, found = s2, true, true
+					ew, lastFirst = k, 0
+					break
+				}
+			}
+			if !found && repeated {
+				fail("wire-order", "first-time frame %d transmitted after first-time frame %d", e.Seq, lastFirst)
+				return
+			}
+			if !found {
+				for k := 0; k < ew; k++ {
+					if _, ok2 := match(k, e); ok2 && cf.Persist {
+						fail("stale-frame-after-reset", "first-time frame %d of an earlier epoch was transmitted after frames of the epoch that followed a reset", e.Seq)
+						return
+					}
+				}
+				if _, numberKnown := savedIn(ew, e.Seq); numberKnown && cf.Persist {
+					fail("wire-bytes-differ", "the bytes on the wire under %d differ from the bytes stored under %d", e.Seq, e.Seq)
+				} else {
+					fail("sent-without-persist", "frame %d (35=%s) was transmitted but never handed to the store", e.Seq, first(e.Fields.Get(35)))
+				}
+				return
+			}
 		}
 		if e.Seq <= lastFirst {
 			fail("wire-order", "first-time frame %d transmitted after first-time frame %d", e.Seq, lastFirst)
 			return
 		}
 		lastFirst = e.Seq
-		wireSeen[e.Seq] = true
-		if s, ok := saved[e.Seq]; ok {
-			if s.ticket > int64(e.Step) {
-				fail("sent-before-persisted", "frame %d reached the wire (ticket %d) before it was persisted (ticket %d)", e.Seq, e.Step, s.ticket)
-				return
-			}
-			if cf.Persist && !bytes.Equal(s.bytes, e.Bytes) {
-				fail("wire-bytes-differ", "the bytes on the wire under %d differ from the bytes stored under %d", e.Seq, e.Seq)
-				return
-			}
-		} else if len(saves) > 0 && e.Seq >= saves[0].n {
-			fail("sent-without-persist", "frame %d was transmitted but never handed to the store", e.Seq)
+		wireSeen[[2]int{ew, e.Seq}] = true
+		if ok && s.ticket > int64(e.Step) {
+			fail("sent-before-persisted", "frame %d reached the wire (ticket %d) before it was persisted (ticket %d)", e.Seq, e.Step, s.ticket)
 			return
 		}
 	}
-	for _, s := range saves {
-		if !wireSeen[s.n] {
+	lastEpoch := len(epochs) - 1
+	for _, s := range epochs[lastEpoch] {
+		if !wireSeen[[2]int{lastEpoch, s.n}] {
 			fail("assigned-number-not-transmitted", "number %d was handed out but never transmitted although the session stayed logged on until quiescence", s.n)
 			return
 		}
 	}
-	if len(saves) > 0 && finalNext != saves[len(saves)-1].n+1 {
-		fail("final-next-sender", "the store's next outbound number is %d, the highest number handed out is %d", finalNext, saves[len(saves)-1].n)
+	if ls := epochs[lastEpoch]; len(ls) > 0 && finalNext != ls[len(ls)-1].n+1 {
+		fail("final-next-sender", "the store's next outbound number is %d, the highest number handed out is %d", finalNext, ls[len(ls)-1].n)
 		return
 	}
+	saves := epochs[lastEpoch]
+	r.Count("epochs", len(epochs))
 	// replay exclusion
 	wi := 0
 	overlapped := 0
